@@ -462,6 +462,33 @@ def _classify(an: Analysis, module, name, value, cls):
         if mutated:
             return 'bad', 'a class level dict is mutated at %s:%d' % (
                 mutated[0][0].module.relpath, mutated[0][1].lineno)
+        if cls is None:
+            # a module level dict: written through its name anywhere in the module?
+            for node in ast.walk(module.tree):
+                hit = None
+                if isinstance(node, ast.Subscript) and isinstance(node.value, ast.Name) \
+                        and node.value.id == name and isinstance(node.ctx,
+                                                                 (ast.Store, ast.Del)):
+                    hit = node
+                elif isinstance(node, ast.Call) and isinstance(node.func, ast.Attribute) \
+                        and isinstance(node.func.value, ast.Name) \
+                        and node.func.value.id == name and node.func.attr in (
+                            'update', 'pop', 'clear', 'setdefault', 'popitem',
+                            '__setitem__', '__delitem__'):
+                    hit = node
+                if hit is not None:
+                    if _import_time_registry(an, module, name):
+                        return 'ok', 'a registry filled while the module is imported'
+                    return 'bad', 'a module level dict is written at %s:%d: state that ' \
+                                  'outlives a simulation' % (module.relpath, hit.lineno)
+            for other in an.p.modules.values():
+                binding = other.bindings.get(name)
+                if other is not module and binding and binding[0] == 'import' and \
+                        binding[1] == module.name and any(
+                        isinstance(n, ast.Subscript) and isinstance(n.value, ast.Name)
+                        and n.value.id == name and isinstance(n.ctx, (ast.Store, ast.Del))
+                        for n in ast.walk(other.tree)):
+                    return 'bad', 'a module level dict is written from %s' % other.relpath
         return 'ok', 'constant table'
     if isinstance(value, ast.Call):
         text = ast.unparse(value.func)
